@@ -309,12 +309,20 @@ func c07Bodies(seed int64, n int) {
 				count("body_" + how)
 				distinct(how + strings.Join(desc, ";") + fmt.Sprint(j))
 				var ret error
-				func() {
+				finished := make(chan struct{})
+				go func() {
+					defer close(finished)
 					defer func() { _ = recover() }()
 					ctx, cancel := context.WithCancel(context.Background())
 					defer cancel()
+					// error and panic bodies run under the plain Update (no context whose cancellation
+					// would clean up behind them); cancellation needs UpdateContext
+					update := func(f func(tx *redka.Tx) error) error { return x.DB.Update(f) }
+					if how == "cancel" {
+						update = func(f func(tx *redka.Tx) error) error { return x.DB.UpdateContext(ctx, f) }
+					}
 					ret = errBody
-					ret = x.DB.UpdateContext(ctx, func(tx *redka.Tx) error {
+					ret = update(func(tx *redka.Tx) error {
 						r := hxTx(tx)
 						for i, op := range body {
 							if i == j {
@@ -342,6 +350,12 @@ func c07Bodies(seed int64, n int) {
 						return nil
 					})
 				}()
+				select {
+				case <-finished:
+				case <-time.After(20 * time.Second):
+					fail("c07-unusable", fmt.Sprintf("a transaction body [%s] aborted by %s after %d operations: the call does not return (the handle is blocked, probably by a transaction left open by an earlier aborted body)", strings.Join(desc, " ; "), how, j), desc)
+					return
+				}
 				dk, derr := x.DumpRaw()
 				if derr != nil {
 					fail("c07-unusable", fmt.Sprintf("after a transaction body aborted by %s the database cannot be read: %v", how, derr), desc)
